@@ -108,8 +108,15 @@ check("C06",
       "defined), SubStreamsInfo (stream counts explicit or omitted, SIZE section present or absent, digest section "
       "present or absent; the count guard provably never fires on an accepted record) and hence the whole StreamsInfo "
       "record: everything that decides which bytes a member gets (folders with one result stream; the distribution of "
-      "digests is read but not compared). Partial: for the FilesInfo property loop 'Impl reader = strict reader on "
-      "valid input' is tied by correspondence and exploration, not proved.",
+      "digests is read but not compared); reader_refines_spec_encoded_record (the next-header buffer as an EncodedHeader "
+      "record); and the bodies of the FilesInfo properties: _bitfield (EmptyStream / EmptyFile), _times, _attrs (all / "
+      "partially / not defined), _names (UTF-16 names up to read_utf16's limit, backslash rewrite); and "
+      "reader_never_misreads_header - on every next-header buffer < 131072 bytes that the strict reader accepts as a raw "
+      "Header (any StreamsInfo, any FilesInfo property sequence) py7zr's reader model returns a header object that agrees "
+      "with the strict reader's (streams; per member: empty-stream flag, name, three times, attributes) or raises "
+      "(Anti / StartPos are unsupported); it never succeeds with other values. Partial: the disjunction (conformance "
+      "up to the properties py7zr refuses), the size bound (read_utf16's 65535-unit limit), folders with one result "
+      "stream, EmptyFile/Anti flags and digests not compared.",
       "Lean 4 refinement proofs (cursor simulates the format's assignment; py7zr's reader model refines the strict reader production by production, by inversion of both parser monads) + strict reference parser + differential correspondence + layout exploration with an independent writer",
       "DESIGN.md §9.3 C06")
 check("C07",
